@@ -1,10 +1,15 @@
-import IofloModel.Model.HttpMsg
+import IofloModel.Model.HttpValet
 import IofloModel.Drv.Proto
 /-! driver for the HTTP message parser model (engine `httpmsg`).
 
 request  `<req|rsp>[!] <METHOD> <max> <op> ...`   (`!` = the unrepaired `except HTTPException` of parseMessage)   op = `f<hex>` (msg.extend + parse) | `p` (parse) | `c` (close) |
                                                `n` (makeParser + parse)
 reply    the parser fields, ` | ` separated, in the format of harness/props/c29.py `run_impl`
+request  `valet <max> <0|1> <op> ...`          the connection table of a Valet (`1` = repaired parseMessage):
+                                               `k<ca>` connect, `r<ca>:<hex>` receive, `s` serviceAll
+request  `client <METHOD> <max> <0|1> <op> ...`  a Patron awaiting one response: `f<hex>` receive + serviceResponse, `c` cutoff
+reply    `raised=<T|F> waited=<T|F> responses=<ok|E,...> left=<hex>`
+reply    `raised=<T|F> | <ca> closed | <ca> served=<n> parser=<none|live> left=<hex> ...`
 -/
 namespace Ioflo.Drv.HttpMsg
 open Ioflo.Proto Ioflo.Http
@@ -64,8 +69,64 @@ def runOps : St → List String → Option St
         | none => none
       | _ => none
 
+/-- ops of the connection table model: `k<ca>` connect, `r<ca>:<hex>` receive, `s` serviceAll -/
+def valetOps (max : Nat) (cve : Bool) : Valet → List Nat → List String → Option (Valet × List Nat)
+  | v, cas, [] => some (v, cas)
+  | v, cas, op :: ops =>
+    if v.raised then some (v, cas) else
+    match op.toList with
+    | ['s'] => valetOps max cve v.serviceAll cas ops
+    | 'k' :: d => match (String.ofList d).toNat? with
+      | some ca => valetOps max cve (v.connect ca max cve) (if cas.contains ca then cas else cas ++ [ca]) ops
+      | none => none
+    | 'r' :: d => match (String.ofList d).splitOn ":" with
+      | [a, h] => match a.toNat?, hexToBytes? h with
+        | some ca, some b => valetOps max cve (v.recv ca b) cas ops
+        | _, _ => none
+      | _ => none
+    | _ => none
+
+def renderValet (v : Valet) (cas : List Nat) : String :=
+  let l0 := "raised=" ++ (if v.raised then "T" else "F")
+  let ls := cas.map (fun ca => match lookup ca v.conns with
+    | none => toString ca ++ " closed"
+    | some c => toString ca ++ " served=" ++ toString c.served ++ " parser=" ++
+        (if c.req.core.gen = .none then "none" else "live") ++ " left=" ++ hx c.req.msg)
+  String.intercalate " | " (l0 :: ls)
+
+def clientOps : Client → List String → Option Client
+  | c, [] => some c
+  | c, op :: ops =>
+    if op = "c" then clientOps c.closed ops
+    else match op.toList with
+      | 'f' :: h => match hexToBytes? (String.ofList h) with
+        | some b => clientOps (c.recv b) ops
+        | none => none
+      | _ => none
+
+def renderClient (c : Client) : String :=
+  if c.rsp.core.gen = .unmodelled then "client unmodelled" else
+  "raised=" ++ (if c.raised then "T" else "F") ++ " waited=" ++ (if c.waited then "T" else "F") ++
+  " responses=" ++ String.intercalate "," (c.responses.map (fun e => if e then "E" else "ok")) ++
+  " left=" ++ hx c.rsp.msg
+
 def step (_ : Unit) (line : String) : Unit × String :=
   match words line with
+  | "client" :: m :: mx :: cv :: ops =>
+    match mx.toNat? with
+    | some max =>
+      let s0 := init .rsp (m.toList.map Char.toNat) max
+      match clientOps { rsp := { s0 with core := { s0.core with catchVE := (cv == "1") } } } ops with
+      | some c => ((), renderClient c)
+      | none => ((), "bad-op")
+    | none => ((), "bad-op")
+  | "valet" :: mx :: cv :: ops =>
+    match mx.toNat? with
+    | some max =>
+      match valetOps max (cv == "1") {} [] ops with
+      | some (v, cas) => ((), renderValet v cas)
+      | none => ((), "bad-op")
+    | none => ((), "bad-op")
   | k :: m :: mx :: ops =>
     let kind? : Option (Kind × Bool) :=
       if k = "req" then some (.req, true) else if k = "rsp" then some (.rsp, true)
